@@ -147,6 +147,8 @@ def build(s):
     if k == "Fraction":
         return hg.Fraction(mkq(s["q"]), build(s["value"]))
     if k == "Select":
+        if s.get("default_cut"):
+            return hg.Select(mkq(s["q"]))          # relies on the default argument cut=Count()
         return hg.Select(mkq(s["q"]), build(s["cut"]))
     if k == "Categorize":
         return hg.Categorize(mkq(s["q"]), build(s["value"]))
@@ -436,3 +438,144 @@ class Machine:
 
     def run(self, ops):
         return [self.step(o) for o in ops]
+
+
+# ----------------------------------------------------------------------------- identities
+def fixed_children(h):
+    """fixed children in model order (coq/Model/Agg.v), as (getter key) list"""
+    n = h.name
+    d = h.__dict__
+    if n == "Bin":
+        return list(d["values"]) + [d["underflow"], d["overflow"], d["nanflow"]]
+    if n == "SparselyBin":
+        return [d["nanflow"]]
+    if n in ("CentrallyBin", "IrregularlyBin", "Stack"):
+        return [v for _, v in d["bins"]] + [d["nanflow"]]
+    if n == "Fraction":
+        return [d["denominator"], d["numerator"]]
+    if n == "Select":
+        return [d["cut"]]
+    if n in ("Label", "UntypedLabel"):
+        return [d["pairs"][k] for k in sorted(d["pairs"], key=lambda s: s.encode("utf-8"))]
+    if n in ("Index", "Branch"):
+        return list(d["values"])
+    return []
+
+
+def sparse_children(h):
+    if h.name in ("SparselyBin", "Categorize"):
+        return [v for _, v in sorted(h.__dict__["bins"].items(), key=lambda kv: key_sort(kv[0]))]
+    return []
+
+
+def container_of(h):
+    """the mutable container object a node owns, if any"""
+    n = h.name
+    d = h.__dict__
+    if n == "Bag":
+        return d["values"]
+    if n == "Bin":
+        return d["values"]
+    if n in ("SparselyBin", "Categorize", "CentrallyBin"):
+        return d["bins"]
+    if n in ("Label", "UntypedLabel"):
+        return d["pairs"]
+    return None          # tuples (IrregularlyBin/Stack bins, Index/Branch values) are immutable
+
+
+def idseq(h, out):
+    """identities of all fillable positions in the order of Forest.ids (templates excluded);
+    an object installed at two positions is traversed at both (as in the model)"""
+    out.append(("o", id(h)))
+    c = container_of(h)
+    out.append(("c", id(c)) if c is not None else ("p", id(h)))
+    for k in fixed_children(h):
+        idseq(k, out)
+    for k in sparse_children(h):
+        idseq(k, out)
+
+
+def canon(seq):
+    first = {}
+    out = []
+    for x in seq:
+        if x not in first:
+            first[x] = len(first)
+        out.append(first[x])
+    return out
+
+
+def set_fixed_child(h, i, obj):
+    n = h.name
+    d = h.__dict__
+    if n == "Bin":
+        num = len(d["values"])
+        if i < num:
+            d["values"][i] = obj
+        else:
+            d[["underflow", "overflow", "nanflow"][i - num]] = obj
+    elif n == "SparselyBin":
+        d["nanflow"] = obj
+    elif n in ("CentrallyBin", "IrregularlyBin", "Stack"):
+        bins = list(d["bins"])
+        if i < len(bins):
+            bins[i] = (bins[i][0], obj)
+            d["bins"] = bins if n == "CentrallyBin" else tuple(bins)
+        else:
+            d["nanflow"] = obj
+    elif n == "Fraction":
+        d[["denominator", "numerator"][i]] = obj
+    elif n == "Select":
+        d["cut"] = obj
+    elif n in ("Label", "UntypedLabel"):
+        k = sorted(d["pairs"], key=lambda s: s.encode("utf-8"))[i]
+        d["pairs"][k] = obj
+    elif n in ("Index", "Branch"):
+        vs = list(d["values"])
+        vs[i] = obj
+        d["values"] = tuple(vs)
+        if n == "Branch":
+            setattr(h, "i" + str(i), obj)
+    else:
+        raise ValueError("no fixed children in " + n)
+
+
+def get_path(h, path):
+    for i in path:
+        h = fixed_children(h)[i]
+    return h
+
+
+class IdMachine(Machine):
+    """like Machine, and after every op also observes the identity partition of the whole pool
+    and the snapshots of all entries (for the non-interference oracle)"""
+
+    def __init__(self):
+        super().__init__()
+        self.snaps = []      # per op: list of token lists, one per pool entry
+
+    def pids(self):
+        seq = []
+        for h in self.pool:
+            idseq(h, seq)
+        return canon(seq)
+
+    def step(self, op):
+        if op[0] == "share":
+            h = self.pool[op[1]]
+            obj = get_path(h, op[2])
+            parent = get_path(h, op[3][:-1])
+            set_fixed_child(parent, op[3][-1], obj)
+            ob = [0] + snap(h) + [-777] + self.pids()
+        else:
+            ob = super().step(op)
+            if op[0] == "hash":
+                pass
+            elif op[0] == "snapall":
+                ob = self.pids()
+            elif ob == [1] or ob == [2]:
+                pass
+            else:
+                ob = ob + [-777] + self.pids()
+        self.snaps.append([snap(h) for h in self.pool])
+        return ob
